@@ -288,6 +288,7 @@ func main() {
 			s.ICMP6SendNeighborAdvertisement(packet.Addr{MAC: tokMAC(a[0]), IP: tokIP(a[1])}, packet.Addr{MAC: tokMAC(a[2]), IP: tokIP(a[3])}, packet.Addr{MAC: tokMAC(a[4]), IP: tokIP(a[5])})
 		})
 	})
+	registerPaths(r)
 	if r.Replayed() {
 		return
 	}
@@ -327,5 +328,6 @@ func main() {
 			do("echo6", c, lib.Hex(g.mac()), ipTok(g.ip6()), lib.Hex(g.mac()), ipTok(g.ip4()), id, seq, g.seed())
 		}
 	}
+	generatePaths(r, g, do)
 	r.Sample("purgearp 005555555555 c0a80081 fe800000000000000000000000010129 006666666666 c0a8000b 1500 c0a80005 7 => ffffffff0604... (destination MAC bytes 4,5 overwritten by hlen/plen; arp hlen/plen stale)")
 }
